@@ -16,6 +16,32 @@ use crate::run::Ctx;
 use crate::world::*;
 
 fn apply(tree: &mut Tree, c: &Corruption) -> bool {
+    if c.kind == "sibling" {
+        // a misdirected write: the file gets the content of another column file of the same
+        // row-set that has the same length (every block of it carries a valid checksum)
+        let Some((dir, _)) = c.file.rsplit_once('/') else { return false };
+        let Some(me) = tree.files.get(&c.file).cloned() else { return false };
+        let ext = if c.file.ends_with(".col") { ".col" } else { ".idx" };
+        let donor = tree
+            .files
+            .iter()
+            .filter(|(p, d)| {
+                **p != c.file
+                    && p.ends_with(ext)
+                    && p.rsplit_once('/').map(|x| x.0) == Some(dir)
+                    && d.len() == me.len()
+                    && **d != me
+            })
+            .map(|(_, d)| d.clone())
+            .next();
+        return match donor {
+            Some(d) => {
+                tree.files.insert(c.file.clone(), d);
+                true
+            }
+            None => false,
+        };
+    }
     let Some(f) = tree.files.get_mut(&c.file) else {
         return false;
     };
@@ -171,6 +197,19 @@ pub async fn run(cx: &mut Ctx) {
                     pos: len - back,
                     bit: rng.below(8) as u8,
                     val: rng.below(20) as u8,
+                    mode: rng.below(3) as u8,
+                    compact_after: false,
+                });
+            }
+            // a sibling's content (known finding: nothing binds a block to its column), kept to
+            // the small share of runs that does not steer around known findings
+            if cx.case.param("avoid", 1) == 0 {
+                plan.push(Corruption {
+                    file: f.clone(),
+                    kind: "sibling".into(),
+                    pos: 0,
+                    bit: 0,
+                    val: 0,
                     mode: rng.below(3) as u8,
                     compact_after: false,
                 });
